@@ -237,8 +237,8 @@ func (e *env) schemesOf(sp *aeadKeySpec, vi int, id uint32) []*aeadScheme {
 func (e *env) aeadSection() {
 	o := e.o
 	rng := e.rng("aead")
-	singles := hlib.N(3, 24)
-	hists := hlib.N(1, 6)
+	singles := hlib.N(8, 40)
+	hists := hlib.N(3, 10)
 	for _, sp := range e.aeadSpecs(rng) {
 		for _, vi := range sp.vis {
 			o.Case()
